@@ -183,6 +183,21 @@ def search(ctx):
     return [v for v in run(c2)['violations'] if v[1]]
 def replay(ctx, rp):
     if rp['kind'] == 'prop' and rp['case'].startswith('#include'):
-        print('replay = the generated program in the file; build it with: g++ -std=c++17 -I/repo/include -I/repo/bin -I/verif/harness <file> /repo/include/binlog/*.cpp /repo/include/binlog/detail/*.cpp /repo/bin/printers.cpp')
-        return not ctx.obligations_ok or True
-    return runner.generic_replay(ctx, rp)
+        # rebuild the kept program against the current tree and compare what it prints with the model's text kept beside it
+        work = tempfile.mkdtemp(prefix='logr_', dir=WORK)
+        try:
+            open(os.path.join(work, 'p.cpp'), 'w').write(rp['case'])
+            flags = ['-std=c++17', '-O0', '-g0', '-fsanitize=undefined', '-fno-sanitize=nonnull-attribute', '-fno-sanitize-recover=all', '-UNDEBUG', '-fwrapv']
+            common = sorted(glob.glob(REPO + '/include/binlog/*.cpp')) + sorted(glob.glob(REPO + '/include/binlog/detail/*.cpp')) + [REPO + '/bin/printers.cpp']
+            r = sh(['g++'] + flags + ['-I' + REPO + '/include', '-I' + REPO + '/bin', '-I' + os.path.join(VERIF, 'harness'), os.path.join(work, 'p.cpp')] + common + ['-o', os.path.join(work, 'p'), '-pthread'])
+            if r.returncode != 0: print(r.stdout[-1500:]); return True
+            pr = subprocess.run([os.path.join(work, 'p')], stdout=subprocess.PIPE, stderr=subprocess.PIPE, universal_newlines=True, timeout=120, errors='replace')
+            l = [x for x in pr.stdout.split('\n') if x.startswith('status=')]
+            if pr.returncode != 0 or not l: print(pr.stderr[-1500:]); return True
+            o = parse_fields(l[0]); got = bytes.fromhex(o.get('text', '')).decode('latin1'); want = rp['expected'][len('printed text (model): '):]
+            print('program prints:', got[:600]); print('model text:    ', want[:600])
+            return got != want or bytes.fromhex(o.get('status', '')).decode('latin1') != 'ok'
+        finally:
+            shutil.rmtree(work, ignore_errors=True)
+    # wire-level lines: the model's text of the same log is the expected value (it equals the independent python rendering on the unchanged tree)
+    return runner.generic_replay(ctx, dict(rp, kind='corr'))
